@@ -117,23 +117,27 @@ def gen():
     want = {k: v["count"] for k, v in inv.items()}
     diffs = []
     for k in sorted(set(found) | set(want)):
-        if found.get(k, 0) != want.get(k, 0):
-            diffs.append(f"{k}: source has {found.get(k, 0)}, inventory has {want.get(k, 0)}")
+        # more sites than reviewed (or an unreviewed one) is a difference; fewer is not: a removed
+        # panic site can never break "the VM never panics"
+        if found.get(k, 0) > want.get(k, 0):
+            diffs.append(f"{k}: source has {found.get(k, 0)}, the reviewed allow-list has {want.get(k, 0)}")
     ok = not diffs
     esc = lambda s: s.replace("\\", "\\\\").replace('"', '\\"')
-    rows = ",\n  ".join(f'("{esc(k)}", {v})' for k, v in sorted(found.items()))
+    rows = ",\n  ".join(f'("{esc(k)}", {found.get(k, 0)}, {want.get(k, 0)})' for k in sorted(set(found) | set(want)))
     dl = ",\n  ".join(f'"{esc(d)}"' for d in diffs)
     return f"""namespace AranyaV.Gen.VMPanicSites
 
-/-- panic-capable constructs found in the modelled functions: (file::fn::token, occurrences) -/
-def sites : List (String × Nat) := [
+/-- (file::fn::kind, occurrences found in the current source, occurrences reviewed in
+tools/inventory/C25.json) for every panic-capable construct found or reviewed -/
+def siteCounts : List (String × Nat × Nat) := [
   {rows}]
 
-/-- differences between the source and tools/inventory/C25.json -/
+/-- sites exceeding their reviewed count -/
 def differences : List String := [
   {dl}]
 
-/-- every site has a disposition in the committed inventory and nothing else is present -/
+/-- no (file, function, kind) has more panic-capable constructs than reviewed (computed by the
+translator; `Props/C25.panic_inventory_matches` re-decides it over `siteCounts` in Lean) -/
 def inventoryOk : Bool := {"true" if ok else "false"}
 
 end AranyaV.Gen.VMPanicSites
